@@ -39,17 +39,15 @@ Record gen := mkGen {
   g_phase : gphase;
   g_offset : Z;        (* the `offset` variable of run: restart position *)
   g_conn : Z;          (* Conn.offset of the current connection *)
-  g_attempt : Z;
-  g_desync : bool      (* F2: an error response of fetch v5+ left bytes on the connection *)
+  g_attempt : Z
 }.
 
 Record gcfg := mkCfg {
   c_max_attempts : Z;
-  c_oor_error : bool;   (* ReaderConfig.OffsetOutOfRangeError *)
-  c_fetch_v5 : bool     (* the connection negotiated fetch v5 or v10 *)
+  c_oor_error : bool    (* ReaderConfig.OffsetOutOfRangeError *)
 }.
 
-Definition gen_start (offset : Z) : gen := mkGen PInit offset FirstOffset 0 false.
+Definition gen_start (offset : Z) : gen := mkGen PInit offset FirstOffset 0.
 
 Section Gen.
 Variable run : Z -> Z -> list N -> Z -> bool -> option (list msg * err * Z).
@@ -66,8 +64,6 @@ Definition kafka_code (e : err) : option Z :=
 (* the outcome of reader.read: messages sent, the error, the new `offset`, the new
    Conn.offset, whether Batch.close closed the connection *)
 Definition read_once (g : gen) (r : fetch_resp) : option (list gout * err * Z * Z) :=
-  if g_desync g then Some ([], EIO, g_offset g, g_conn g) (* garbage frame: io.ErrNoProgress *)
-  else
   match r with
   | FTransport => Some ([], EIO, g_offset g, g_conn g)
   | FNoProgress => Some ([], EIO, g_offset g, g_conn g)
@@ -87,30 +83,28 @@ Definition gen_step (g : gen) (ev : gev) : option (gen * list gout) :=
   match g_phase g, ev with
   | PInit, GDialFail =>
     let outs := if c_max_attempts cfg <=? g_attempt g then [OErr EIO] else [] in
-    Some (mkGen PInit (g_offset g) FirstOffset (g_attempt g + 1) false, outs)
+    Some (mkGen PInit (g_offset g) FirstOffset (g_attempt g + 1), outs)
   | PInit, GInit first last first2 last2 =>
     let o := g_offset g in
     let o1 := if o =? FirstOffset then first else if o =? LastOffset then last
               else if o <? first then first else o in
     (* Conn.Seek(o1, SeekAbsolute) on a fresh connection (offset = FirstOffset) *)
     if o1 =? FirstOffset then
-      Some (mkGen PRead o1 o1 0 false, [])
+      Some (mkGen PRead o1 o1 0, [])
     else if (o1 <? first2) || (last2 <? o1) then
-      if c_oor_error cfg then Some (mkGen PDone o FirstOffset (g_attempt g) false, [OErr (EKafka 1)])
-      else Some (mkGen PInit o FirstOffset (g_attempt g + 1) false, [])
-    else Some (mkGen PRead o1 o1 0 false, [])
+      if c_oor_error cfg then Some (mkGen PDone o FirstOffset (g_attempt g), [OErr (EKafka 1)])
+      else Some (mkGen PInit o FirstOffset (g_attempt g + 1), [])
+    else Some (mkGen PRead o1 o1 0, [])
   | PRead, GFetch r =>
     match read_once g r with
     | None => None
     | Some (outs, e, o', c') =>
-      let desync := g_desync g || (c_fetch_v5 cfg && match r with FErr _ => true | _ => false end) in
-      let stay := mkGen PRead o' c' 0 desync in
-      let redial := mkGen PInit o' FirstOffset 1 false in
-      if g_desync g then Some (redial, outs) else
+      let stay := mkGen PRead o' c' 0 in
+      let redial := mkGen PInit o' FirstOffset 1 in
       match e with
       | EEOF => Some (stay, outs)
       | ETimedOut => Some (stay, outs)
-      | EKafka 1 => Some (mkGen POffsets o' c' 0 desync, outs)
+      | EKafka 1 => Some (mkGen POffsets o' c' 0, outs)
       | EKafka 3 => Some (redial, outs)
       | EKafka 6 => Some (redial, outs)
       | EKafka c => Some (stay, outs ++ [OErr (EKafka c)])
@@ -119,13 +113,12 @@ Definition gen_step (g : gen) (ev : gev) : option (gen * list gout) :=
       end
     end
   | POffsets, GOffsets r =>
-    let redial := mkGen PInit (g_offset g) FirstOffset 1 false in
-    if g_desync g then Some (redial, []) else
+    let redial := mkGen PInit (g_offset g) FirstOffset 1 in
     match r with
     | None => Some (redial, [])
     | Some (first, last) =>
-      if g_offset g <? first then Some (mkGen PRead first (g_conn g) 0 false, [])
-      else Some (mkGen PRead (g_offset g) (g_conn g) 0 false, [])
+      if g_offset g <? first then Some (mkGen PRead first (g_conn g) 0, [])
+      else Some (mkGen PRead (g_offset g) (g_conn g) 0, [])
     end
   | _, _ => Some (g, [])
   end.
@@ -203,7 +196,7 @@ Definition r_step (s : rstate) (l : label) : outcome :=
       | Some (g', outs) =>
         if (Nat.ltb k (length outs)) && (r_version s <=? v) then RStuck
         else
-          let g'' := if Nat.ltb k (length outs) then mkGen PDone (g_offset g') (g_conn g') 0 false else g' in
+          let g'' := if Nat.ltb k (length outs) then mkGen PDone (g_offset g') (g_conn g') 0 else g' in
           RState (mkR (r_version s) (r_offset s)
                       (r_queue s ++ map (fun o => (v, o)) (firstn k outs))
                       (set_gen v g'' (r_gens s)) (r_delivered s)) None
